@@ -461,7 +461,7 @@ until_in_scale(rrulsp_t rr)
 static void
 fill_yly_ywd(
 	bitint383_t *restrict cand, unsigned int y,
-	const bitint63_t woy, const bitint447_t *dow)
+	const bitint63_t woy, const bitint447_t *dow, unsigned int m_mask)
 {
 /* A day counts for the (ISO) week it lies in, so apart from the weeks
  * of ISO year Y the days of calendar year Y can be in the last week of
@@ -504,6 +504,9 @@ fill_yly_ywd(
 					/* some other year's business */
 					continue;
 				} else if (!(md = yd_to_md(y, yd)).m) {
+					continue;
+				} else if (m_mask && !(m_mask >> md.m & 0b1U)) {
+					/* BYMONTH limits the days of the weeks */
 					continue;
 				}
 				/* otherwise it's looking good */
@@ -1127,7 +1130,12 @@ rrul_fill_yly(echs_instant_t *restrict tgt, size_t nti, rrulsp_t rr)
 		} else if (wd_mask && bi63_has_bits_p(rr->wk) &&
 			   srcsca == SCALE_GREGORIAN) {
 			/* ywd */
-			fill_yly_ywd(cand, y, rr->wk, &rr->dow);
+			unsigned int wk_m_mask = 0U;
+
+			for (size_t i = 0U; i < nm; i++) {
+				wk_m_mask |= 1U << m[i];
+			}
+			fill_yly_ywd(cand, y, rr->wk, &rr->dow, wk_m_mask);
 		} else if (wd_mask && nm) {
 			/* ymcw or special expand for monthly,
 			 * see note 2 on page 44, RFC 5545 */
@@ -1171,6 +1179,10 @@ rrul_fill_yly(echs_instant_t *restrict tgt, size_t nti, rrulsp_t rr)
 			;
 		} else if (!nd && bi383_has_bits_p(&rr->doy)) {
 			/* months only limited the days of the year */
+			;
+		} else if (!nd && wd_mask && bi63_has_bits_p(rr->wk) &&
+			   srcsca == SCALE_GREGORIAN) {
+			/* months only limited the days of the weeks */
 			;
 		} else if (!nm) {
 			fill_yly_ymd_all_m(cand, srcsca, y, d, nd, wd_mask);
